@@ -49,6 +49,41 @@ impl fmt::Debug for RecomputeHeap {
 }
 
 impl RecomputeHeap {
+    #[cfg(cormacrelf_incremental_rs_verif)]
+    pub(crate) fn verif_dump(&self, state: &crate::state::State) -> String {
+        use std::fmt::Write;
+        let mut s = String::new();
+        let queues = self.queues.borrow();
+        let _ = write!(
+            s,
+            "{{\"len\":{},\"lower\":{},\"max_allowed\":{},\"queues\":{{",
+            self.length.get(),
+            self.height_lower_bound.get(),
+            queues.len() as i64 - 1
+        );
+        let mut first = true;
+        for (h, q) in queues.iter().enumerate() {
+            let q = q.borrow();
+            if q.is_empty() {
+                continue;
+            }
+            if !first {
+                s.push(',');
+            }
+            first = false;
+            let _ = write!(s, "\"{h}\":[");
+            for (i, n) in q.iter().enumerate() {
+                if i > 0 {
+                    s.push(',');
+                }
+                let _ = write!(s, "{}", state.verif.index_of(n.id));
+            }
+            s.push(']');
+        }
+        s.push_str("}}");
+        s
+    }
+
     pub fn new(max_height_allowed: usize) -> Self {
         let mut queues = Vec::with_capacity(max_height_allowed + 1);
         for _ in 0..max_height_allowed + 1 {
